@@ -229,13 +229,15 @@ def _short(r):
     return [r[0], list(r[1])[:12] if isinstance(r[1], (list, tuple)) else r[1]]
 
 
-def corpus():
+def corpus(deep=False):
     cap = {"neg": False, "null_left": True, "second": False, "bare_bool": False, "indexof": False, "concat": False, "floor": False, "ceiling": False,
            "date": False}
     en = typed.Enumerator(SC.reduced_sigs(typed.signatures(cap)), typed.leaves_for(cap, SC.REDUCED_LEAVES))
     out = []
-    for k in (1, 2):
-        for t in en.terms(typed.B, k):
+    for k in (1, 2, 3) if deep else (1, 2):
+        for i, t in enumerate(en.terms(typed.B, k)):
+            if k == 3 and i % 7:
+                continue        # every 7th three-constructor term: layouts are context-free, the deeper terms add nesting variety
             out.append((t, True))
     n, s, d = typed.F("n"), typed.F("s"), typed.F("d")
     extras = [
@@ -279,7 +281,7 @@ def _unit(unit):
 def run(ctx):
     django_h.setup()
     SC.init_now()
-    corp = corpus()
+    corp = corpus(deep=not ctx.quick)
     if ctx.quick:
         # fixed core: every k=1 term and all extras; k=2 terms: block VERIF_SEED mod 4, single deviations + doubles
         k1 = [c for c in corp if sum(1 for _ in typed.value_subterms(c[0])) <= 4 or not c[1] or any(st[0] == "Boolean" for st in typed.value_subterms(c[0]))]
